@@ -923,7 +923,9 @@ class BatcherCheck(Check):
                 'forms, explicit and default str(arg) keys; (C04, C11) the class of yielded / raised failures from {HarnessError, KeyError '
                 'and a subclass, StopIteration, StopAsyncIteration, TimeoutError, OSError, ValueError, RuntimeError} and arguments that '
                 'compare equal but print differently; (C10) impatient callers that give up before the hand-over; (C11) callers that ask '
-                'again right after being answered; distinct = distinct programs; ')
+                'again right after being answered; batch functions that are a partial / a callable instance / return a bare '
+                '__aiter__-__anext__ object, and that schedule requests to their own batcher; (C11) collector runs inside the retention '
+                'window, case-insensitive str-subclass keys; distinct = distinct programs; ')
         return base + {
             'C04': 'non-trivial = a batch of >= 2 keys with a non-"value" behaviour or a non-forward order',
             'C09': 'non-trivial = a cancelled / timed-out caller whose batch or key was shared with a caller that was not cancelled',
